@@ -213,8 +213,14 @@ class History:
         return {n: sum(1 for s in self.tree[n] if s["kind"] == "plain" and s["ref"] is None)
                 for n in self.names if self.present[n]}
 
-    def run(self, mode="edit", plan="", timeout=60, cwd=None):
+    def run(self, mode="edit", plan="", timeout=None, cwd=None):
         P = self.proj
+        if timeout is None:
+            # generous: Breadlog's time grows quadratically with the number of statements in one file (line/column
+            # lookups rescan the file); 20 000 statements in 4 MB take about 70 s on this machine
+            total = sum(os.path.getsize(os.path.join(dp, f)) for dp, dn, fn in os.walk(P.src) for f in fn)
+            mb = total / 1e6
+            timeout = 60 + int(60 * mb + 40 * mb * mb)
         cache = True if self.use_cache is None else self.use_cache
         src_paths = {os.path.join(P.src, n): i + 1 for i, n in enumerate(self.names)}
         before = {}
